@@ -210,6 +210,12 @@ func c11composite(r *rand.Rand, numGlyphs int, k *mon.Case) ([]glyfref.Component
 		if xy == 1 {
 			fl |= 0x0002
 		}
+		if r.IntN(6) == 0 {
+			// more than one transformation flag: the first in the order
+			// scale, x-and-y scale, two-by-two decides the size (every
+			// rasterizer reads the flags as an if / else-if chain)
+			tr = 4 + r.IntN(4)
+		}
 		switch tr {
 		case 1:
 			fl |= 0x0008
@@ -217,8 +223,20 @@ func c11composite(r *rand.Rand, numGlyphs int, k *mon.Case) ([]glyfref.Component
 			fl |= 0x0040
 		case 3:
 			fl |= 0x0080
+		case 4:
+			fl |= 0x0008 | 0x0040
+		case 5:
+			fl |= 0x0008 | 0x0080
+		case 6:
+			fl |= 0x0040 | 0x0080
+		case 7:
+			fl |= 0x0008 | 0x0040 | 0x0080
 		}
-		k.Class(fmt.Sprintf("composite:words=%d,xy=%d,transform=%d", words, xy, tr))
+		if tr >= 4 {
+			k.Class("composite:several-transformation-flags")
+		} else {
+			k.Class(fmt.Sprintf("composite:words=%d,xy=%d,transform=%d", words, xy, tr))
+		}
 		for _, extra := range []uint16{0x0004, 0x0200, 0x0400, 0x0800, 0x1000} {
 			if r.IntN(5) == 0 {
 				fl |= extra
@@ -489,7 +507,7 @@ func runC11(c *mon.Ctx) {
 		k.Distinct("size-boundary", target, len(gs), k.Index)
 		c11check(c, k, gs, forms, total)
 	})
-	req := []string{"glyphs:65535", "zero-contour-glyph", "simple-decoded", "composite-checked", "loca-format-0", "loca-format-1",
+	req := []string{"composite:several-transformation-flags", "glyphs:65535", "zero-contour-glyph", "simple-decoded", "composite-checked", "loca-format-0", "loca-format-1",
 		"harness-loca-format-0", "harness-loca-format-1", "composite:instructions", "composite:no-instructions",
 		"form:repeat-0", "form:repeat-1", "form:repeat-n", "form:repeat-255", "composite:instructions-flag-not-on-last-component", "form:flag-literal", "form:overlap-bit", "size<=65535", "size>131070",
 		"form:delta=+32767", "form:delta=-32768", "form:coordinate-at-int16-limit", "composite:instructions>=256-bytes", "simple:instructions>=256-bytes"}
